@@ -109,6 +109,44 @@ def session_writes():
                         if probs:
                             out.append(('C08|session|%s|%s' % (wire.TYPE_NAME.get(ty, ty), walker.tags(probs)[0]),
                                         {'hex': m.hex()[:400], 'problems': probs[:3], 'cfg': cfg}))
+    # what the REST views hand out or send when the request cannot be turned into one valid UPDATE: an error, or valid messages
+    a = {'1': 0, '2': [[2, [65001]]], '3': '10.0.0.1'}
+    bad_requests = {
+        'too-many-communities': {'attr': dict(a, **{'8': ['65001:%d' % i for i in range(70)]}), 'nlri': ['10.9.0.0/16']},
+        'too-many-prefixes': {'attr': dict(a), 'nlri': ['10.%d.%d.1/32' % (i // 256, i % 256) for i in range(1200)]},
+        'prefix-without-length': {'attr': dict(a), 'nlri': ['10.9.9.9']},
+        'aspath-too-long': {'attr': dict(a, **{'2': [[2, [65001] * 3000]]}), 'nlri': ['10.9.0.0/16']},
+        'unknown-attribute-text': {'attr': dict(a, **{'16': ['no-such-kind:1:2']}), 'nlri': ['10.9.0.0/16']},
+    }
+    for cfg in ({}, {'four_bytes_as': False}):
+        M = session_messages()
+        for name, body in sorted(bad_requests.items()):
+            w = W.replay(cfg, [('TICK', 0), ('CONN_OK', 0), ('RX', 0, 'OPEN_OK'), ('RX', 0, 'KA')], M)
+            t = w.readable()[0].transport
+            before = len(t.writes)
+            blobs = []
+            try:
+                st, js, raw = w.rest('POST', '/v1/peer/<ip>/json_to_bin', json=body, raw=True)
+                if st == 200 and isinstance(js, dict) and isinstance(js.get('bin'), str):
+                    blobs.append(('json_to_bin', bytes.fromhex(js['bin']) if all(c in '0123456789abcdefABCDEF' for c in js['bin']) else js['bin'].encode()))
+            except Exception:     # noqa  (an error is an allowed outcome)
+                pass
+            try:
+                w.rest('POST', '/v1/peer/<ip>/send/update', json=body)
+                w.sim.drain_threads()
+            except Exception:     # noqa
+                pass
+            blobs += [('send/update', d) for _, d in t.writes[before:]]
+            for via, d in blobs:
+                n += 1
+                frames, err, rest = wire.deframe(d)
+                if err is not None or rest or not frames:
+                    out.append(('C08|rest|%s|%s produced octets that are not whole BGP messages' % (name, via), {'hex': d.hex()[:200], 'cfg': cfg}))
+                    continue
+                for ty, fb in frames:
+                    probs = walker.walk(wire.frame(ty, fb))
+                    if probs:
+                        out.append(('C08|rest|%s|%s|%s' % (name, via, walker.tags(probs)[0]), {'hex': wire.frame(ty, fb).hex()[:400], 'problems': probs[:3], 'cfg': cfg}))
     return n, out
 
 
